@@ -305,12 +305,12 @@ func avgVerdict(full bool, recs []common.AccessLog, real, shadow sharedDiscovery
 	}
 	if full {
 		if len(real.Endpoints) != len(shadow.Endpoints) {
-			return "off:shadow-mismatch"
+			return "nondet"
 		}
 		for k, e := range real.Endpoints {
 			sd, st, n := attributed(shadow.Endpoints[k])
 			if n != e.Count {
-				return "off:shadow-mismatch"
+				return "nondet"
 			}
 			if !checkAvg(e.AverageDuration, sd, n) || !checkAvg(e.AverageTotalDuration, st, n) {
 				return "off:" + proto.Enc(k)
@@ -414,7 +414,15 @@ func exec(c proto.Case, o *proto.Out) []string {
 				sh[j].StatusCode = shadowBase + j
 			}
 			shadow, _, _ := r.once(segsOf(sh, cuts, restarts))
-			outs[i] = format(full, fails, avgVerdict(full, recs, real, shadow), real)
+			verdict := avgVerdict(full, recs, real, shadow)
+			if verdict == "nondet" {
+				// two executions of the same run (differing only in status codes) attributed records differently:
+				// the implementation's outcome depends on Go map iteration order
+				outs[i] = "nondet"
+				o.Count("run-nondeterministic")
+				continue
+			}
+			outs[i] = format(full, fails, verdict, real)
 			for k := range real.Endpoints {
 				if strings.Contains(k, "{_param_") {
 					converged = true
